@@ -33,6 +33,7 @@ import (
 const (
 	// See: https://httpwg.org/specs/rfc7540.html#SettingValues
 	initialMaxFrameSize       = 16384
+	maxAllowedFrameSize       = 1<<24 - 1
 	initialMaxHeaderTableSize = 4096
 
 	// See: https://tools.ietf.org/html/rfc7540#section-6.9.2
@@ -258,6 +259,10 @@ func (r *relay) processFrame(f http2.Frame) error {
 				case http2.SettingInitialWindowSize:
 					r.peer.updateInitialWindowSize(s.Val)
 				case http2.SettingMaxFrameSize:
+					// See: https://httpwg.org/specs/rfc7540.html#SETTINGS_MAX_FRAME_SIZE
+					if s.Val < initialMaxFrameSize || s.Val > maxAllowedFrameSize {
+						return fmt.Errorf("invalid SETTINGS_MAX_FRAME_SIZE %d", s.Val)
+					}
 					r.peer.updateMaxFrameSize(s.Val)
 				}
 				settings = append(settings, s)
